@@ -468,6 +468,79 @@ pub fn s_locale_long_bytes() -> SBoxedStrategy<Vec<u8>> {
         .sboxed()
 }
 
+/// huge locales: 20-120 attributes, 20-150 keywords with distinct keys, 20-120 tfields with distinct
+/// keys and 20-120 private tags (several hundred to a few thousand bytes): count- and
+/// length-dependent limits (u8 counters, fixed-size scratch arrays, "sort only short lists")
+pub fn s_locale_huge_bytes() -> SBoxedStrategy<Vec<u8>> {
+    (
+        s_langast(3),
+        prop_oneof![1 => Just(0usize), 2 => 20usize..120],
+        prop_oneof![1 => Just(0usize), 2 => 20usize..150],
+        prop_oneof![1 => Just(0usize), 2 => 20usize..120],
+        prop_oneof![1 => Just(0usize), 2 => 20usize..120],
+        vec(s_value(), 120),
+        any::<u64>(),
+        any::<bool>(),
+        prop_oneof![2 => Just(0u64), 1 => any::<u64>()],
+    )
+        .prop_map(|(id, na, nk, nt, np, vals, salt, u_first, cm)| {
+            let mut toks: Vec<String> = vec![];
+            id.tokens(&mut toks);
+            let val = |i: usize| vals[i % vals.len()].clone();
+            let mut u: Vec<String> = vec![];
+            if na + nk > 0 {
+                u.push("u".into());
+                for i in 0..na {
+                    u.push(val(i * 7 + 1));
+                }
+                // distinct keys in a scrambled order
+                for i in 0..nk {
+                    let k = ((i as u64 * 389 + salt) % 936) as usize;
+                    let c0 = b"abcdefghijklmnopqrstuvwxyz0123456789"[k / 26] as char;
+                    let c1 = (b'a' + (k % 26) as u8) as char;
+                    let key: String = [c0, c1].iter().collect();
+                    if u.iter().skip(1 + na).step_by(2).any(|x| *x == key) {
+                        continue;
+                    }
+                    u.push(key);
+                    u.push(val(i * 3));
+                }
+            }
+            let mut t: Vec<String> = vec![];
+            if nt > 0 {
+                t.push("t".into());
+                for i in 0..nt {
+                    let k = ((i as u64 * 97 + salt) % 260) as usize;
+                    let key: String = [(b'a' + (k / 10) as u8) as char, (b'0' + (k % 10) as u8) as char].iter().collect();
+                    if t.iter().skip(1).step_by(2).any(|x| *x == key) {
+                        continue;
+                    }
+                    t.push(key);
+                    let mut v = val(i * 5 + 2);
+                    if v == "true" {
+                        v = "tru3".into();
+                    }
+                    t.push(v);
+                }
+            }
+            if u_first {
+                toks.extend(u);
+                toks.extend(t);
+            } else {
+                toks.extend(t);
+                toks.extend(u);
+            }
+            if np > 0 {
+                toks.push("x".into());
+                for i in 0..np {
+                    toks.push(val(i * 11 + 3));
+                }
+            }
+            render_tokens(&toks, cm, 0)
+        })
+        .sboxed()
+}
+
 // ------------------------------------------------------------------------------------------
 // G3: near-miss mutation
 
